@@ -8,7 +8,8 @@ EXPLANATION = (
     "D2 verdicts are full equality tests (String != String on computed vs recorded hash, u64 != on file length vs recorded size) with error payloads in (expected, actual) order; "
     "absent size -> MissingSize, no matching digest -> MissingChecksum, digest filter by PartialEq on Digest; I/O and digest errors propagated with `?`; "
     "D3 find_entry grows the candidate key by prepending components in reverse order and returns the first hit, exhaustion -> NotFound; the Distinfo::verify_* wrappers call find_entry first and propagate its error; `the first checksum with the requested digest, else MissingChecksum` is decided on the first_match normal form (for-loop with continue, or .iter().find(..) with let-else); Distinfo::verify_checksums may delegate to Entry::verify_checksums of the entry found for the same path"
-    " D4-DIGEST-DISPATCH each algorithm dispatches to its own hasher and patches to the patch-filtering routine: C13's D1-DISPATCH verdicts are shared instances.")
+    " D4-DIGEST-DISPATCH each algorithm dispatches to its own hasher and patches to the patch-filtering routine: C13's D1-DISPATCH verdicts are shared instances."
+    " D3-LOOKUP#every-component find_entry walks all components of the path (rev() of the path's own iterator, no other adaptor).")
 NOT_DECIDED = ["digest correctness (C13 / RustCrypto)", "file-system semantics (File::open, metadata().len())", "Path component semantics"]
 CONFIG_SENSITIVE = False
 DESUGAR = True
@@ -189,6 +190,24 @@ def run(ctx):
         okrev = bool(nexts) and all(mentions(e.args[0], lambda s: is_call(s, "::rev")) and mentions(e.args[0], lambda s: is_call(s, "Path::iter", "Path::components")) and mentions(e.args[0], lambda s: s == ("param", 2)) for e in nexts)
         ctx.check(okrev, "D3-LOOKUP", FE, "reverse-components", "iterates the path's components last to first",
                   "find_entry does not iterate the components of its path argument in reverse", fn_span(body))
+        # ... all of them: nothing between the path's iterator and the loop but rev() (take / skip / step_by / filter would leave trailing sub-paths untried)
+        from lib import _iter_source
+        def only_rev(t):
+            t = strip_refs(t)
+            for _ in range(8):
+                while isinstance(t, tuple) and t and t[0] in ("ref", "refmut"):
+                    t = t[1]
+                if isinstance(t, tuple) and t and t[0] == "loc" and len(t) > 2:
+                    t = t[2]
+                elif isinstance(t, tuple) and t and t[0] == "havoc" and len(t) > 3:
+                    t = t[3]
+                elif is_call(t, "Iterator::rev", "IntoIterator>::into_iter") and call_args(t):
+                    t = call_args(t)[0]
+                else:
+                    break
+            return is_call(t, "Path::iter", "Path::components")
+        ctx.check(bool(nexts) and all(only_rev(e.args[0]) for e in nexts), "D3-LOOKUP", FE, "every-component", "every trailing sub-path is tried (rev() of the path's own iterator, nothing else)",
+                  "the loop does not walk all components of the path (an adaptor other than rev() sits on the iterator): some trailing sub-paths are never looked up", fn_span(body))
         hits = [p for p in ret_paths(ps) if unwrap_ok(p.end[1]) is not None]
         ctx.floor("D3-LOOKUP", FE, "hit paths", len(hits), 2)
         shapes = set()
